@@ -140,6 +140,7 @@ func cmdCheck(args []string) int {
 	fs.Parse(args)
 	keepFiles = *keep
 	siteCoversComplete = *tier == "thorough"
+	blockCovers = os.Getenv("GVC_BLOCKCOVERS") != ""
 	t0 := time.Now()
 	g, err := loadGen(*repo, []string{"./..."}, filepath.Join(*verif, "contracts", "stubs"))
 	if err != nil {
@@ -254,7 +255,10 @@ func report(g *Gen, prop, tier, verif string, results []*funcResult, wall, loadS
 		for _, o := range fr.vc.obls {
 			if o.Cover {
 				covers++
-				if o.Result == "unsat" {
+				if o.Result == "unsat" && o.PreReach == "block" {
+					fmt.Printf("DEAD-BLOCK: %s %s\n", o.Name, o.Src)
+					coversOK++
+				} else if o.Result == "unsat" {
 					checkErrors = append(checkErrors, "vacuity: "+o.Name+" ("+o.Src+") is unsatisfiable")
 				} else {
 					coversOK++
